@@ -420,4 +420,52 @@ theorem C06_fw_safe (G : (AclId → Acl) → Prop)
 end rtr
 
 
+/-! ## the Terminal on a router / firewall -/
+
+section terminal
+
+/-- for a frame that does not carry the id of a live remote session of the device, the Terminal is one more own service
+that answers to the source -/
+theorem rtrWithTerminal_session_eq (hops : List Ip) (x : RtrOpaque W) (t : TerminalGate W) (termPort : Nat) (s : Node W) (p : Nat)
+    (f : Frame) (h : t.authorised s f = false) :
+    (rtrWithTerminal hops x t termPort).session s p f = (rtrStd hops (withRefuse x t termPort)).session s p f := by
+  simp only [rtrWithTerminal, rtrStd, withRefuse]
+  cases hex : isArpExempt f
+  · cases hp : isTermPort termPort f
+    · simp [hp]
+    · simp [hp, h]
+  · simp
+
+/-- **A router or firewall with a Terminal behaves, for every frame that carries no live session id of it, exactly like the
+same device without one** — so `C06_rtr_safe`, `C06_fw_safe`, `C06_certifiedN_unchanged` and `C06_certifiedB_unchanged` hold for
+blocking elements WITH their shipped Terminal unless a frame on the attacker side is `authorised`: by C16
+(`C16_command_runs_only_live`, `C16_remote_command_outcomes`) a terminal executes a command only when the command carries the id
+of a live remote session, and such a session is created only by a login with the current password of an enabled account of
+that node — i.e. unless A holds valid credentials of an account on the blocking element. -/
+theorem C06_terminal_confined_unless_authorised (hops : List Ip) (x : RtrOpaque W) (t : TerminalGate W) (termPort : Nat)
+    (s : Node W) (p : Nat) (f : Frame) (hk : s.kind = .router ∨ s.kind = .firewall)
+    (h : ∀ s' y, t.authorised s' ({ f with ttl := y } : Frame) = false) :
+    nodeRx (rtrWithTerminal hops x t termPort) s p f = nodeRx (rtrStd hops (withRefuse x t termPort)) s p f := by
+  have hs : ∀ s' y, (rtrWithTerminal hops x t termPort).session s' p { f with ttl := y } =
+      (rtrStd hops (withRefuse x t termPort)).session s' p { f with ttl := y } :=
+    fun s' y => rtrWithTerminal_session_eq hops x t termPort s' p _ (h s' y)
+  unfold nodeRx
+  split
+  · rfl
+  · split
+    · rename_i f' hg
+      obtain ⟨hf', _⟩ := ifaceRx_up _ _ _ _ _ hg
+      congr 1
+      rw [hf']
+      rcases hk with hk | hk
+      · simp only [nodeLayer, hk, routerRx, routerRxWith, permitted]
+        simp only [hs]
+        rfl
+      · simp only [nodeLayer, hk, fwRx, fwFirst]
+        simp only [hs]
+        rfl
+    · rfl
+
+end terminal
+
 end Primaite.Filter
